@@ -49,12 +49,12 @@ GV_CANARY("Vec_at_const entry");
 MV_CONTRACT_Mat_at
 //@ entry Mat_at
 GV_CANARY("Mat_at entry");
-gv_lemma_mat_bounds(self->base.row_, self->base.col_, r, c);
+GV_GHOST(gv_lemma_mat_bounds(self->base.row_, self->base.col_, r, c);)
 //@ contract Mat_at_const
 MV_CONTRACT_Mat_at_const
 //@ entry Mat_at_const
 GV_CANARY("Mat_at_const entry");
-gv_lemma_mat_bounds(self->base.row_, self->base.col_, r, c);
+GV_GHOST(gv_lemma_mat_bounds(self->base.row_, self->base.col_, r, c);)
 //@ end
 
 /* ---- SymMat ------------------------------------------------------------------------------------------------- */
@@ -62,12 +62,12 @@ gv_lemma_mat_bounds(self->base.row_, self->base.col_, r, c);
 MV_CONTRACT_SymMat_at
 //@ entry SymMat_at
 GV_CANARY("SymMat_at entry");
-if (i >= j) gv_lemma_sym_bounds(self->dim_, i, j); else gv_lemma_sym_bounds(self->dim_, j, i);
+GV_GHOST(if (i >= j) gv_lemma_sym_bounds(self->dim_, i, j); else gv_lemma_sym_bounds(self->dim_, j, i);)
 //@ contract SymMat_at_const
 MV_CONTRACT_SymMat_at_const
 //@ entry SymMat_at_const
 GV_CANARY("SymMat_at_const entry");
-if (i >= j) gv_lemma_sym_bounds(self->dim_, i, j); else gv_lemma_sym_bounds(self->dim_, j, i);
+GV_GHOST(if (i >= j) gv_lemma_sym_bounds(self->dim_, i, j); else gv_lemma_sym_bounds(self->dim_, j, i);)
 //@ end
 
 /* ---- CovMat ------------------------------------------------------------------------------------------------- */
@@ -75,12 +75,12 @@ if (i >= j) gv_lemma_sym_bounds(self->dim_, i, j); else gv_lemma_sym_bounds(self
 MV_CONTRACT_CovMat_row
 //@ entry CovMat_row
 GV_CANARY("CovMat_row entry");
-gv_lemma_cov_row(self->base.row_, self->band_, self->band_1, self->dim_b, row);
+GV_GHOST(gv_lemma_cov_row(self->base.row_, self->band_, self->band_1, self->dim_b, row);)
 //@ contract CovMat_row_const
 MV_CONTRACT_CovMat_row
 //@ entry CovMat_row_const
 GV_CANARY("CovMat_row_const entry");
-gv_lemma_cov_row(self->base.row_, self->band_, self->band_1, self->dim_b, row);
+GV_GHOST(gv_lemma_cov_row(self->base.row_, self->band_, self->band_1, self->dim_b, row);)
 //@ contract CovMat_at
 MV_CONTRACT_CovMat_at
 //@ entry CovMat_at
@@ -96,17 +96,17 @@ GV_CANARY("CovMat_at_const entry");
 MV_CONTRACT_BandMat_at
 //@ entry BandMat_at
 GV_CANARY("BandMat_at entry");
-if (MV_COV_INBAND(self, r, s)) gv_lemma_band_bounds(self->base.row_, self->band_, MV_LO(r, s), MV_HI(r, s) - MV_LO(r, s));
+GV_GHOST(if (MV_COV_INBAND(self, r, s)) gv_lemma_band_bounds(self->base.row_, self->band_, MV_LO(r, s), MV_HI(r, s) - MV_LO(r, s));)
 //@ contract BandMat_at_const
 MV_CONTRACT_BandMat_at_const
 //@ entry BandMat_at_const
 GV_CANARY("BandMat_at_const entry");
-if (MV_COV_INBAND(self, r, s)) gv_lemma_band_bounds(self->base.row_, self->band_, MV_LO(r, s), MV_HI(r, s) - MV_LO(r, s));
+GV_GHOST(if (MV_COV_INBAND(self, r, s)) gv_lemma_band_bounds(self->base.row_, self->band_, MV_LO(r, s), MV_HI(r, s) - MV_LO(r, s));)
 //@ contract BandMat_row
 MV_CONTRACT_BandMat_row
 //@ entry BandMat_row
 GV_CANARY("BandMat_row entry");
-gv_lemma_band_bounds(self->base.row_, self->band_, row, self->band_);
+GV_GHOST(gv_lemma_band_bounds(self->base.row_, self->band_, row, self->band_);)
 //@ end
 
 //@ harness
